@@ -147,7 +147,14 @@ EShutDone ==
 
 EShutCancel ==
   /\ Is("shut-cancel") /\ Once("shc", Ev.n) /\ Marked("shut", Ev.n)
-  /\ IsJob(cfg, Ev.n) /\ S.sh[Ev.n] = "cancelled" /\ Same
+  /\ IsJob(cfg, Ev.n)
+  /\ IF cfg.scdur[Ev.n] > 0
+     THEN S.sh[Ev.n] = "cing" /\ S' = [S EXCEPT !.tsc[Ev.n] = S.now]
+     ELSE S.sh[Ev.n] = "cancelled" /\ Same
+
+EShutCancelDone ==
+  /\ Is("shut-cancel-done") /\ KeepM /\ Marked("shc", Ev.n)
+  /\ HandlerCancelDoneG(cfg, S, Ev.n) /\ S' = HandlerCancelDoneF(cfg, S, Ev.n)
 
 ETick ==
   /\ Is("tick") /\ KeepM
@@ -167,7 +174,7 @@ ESnap ==
 (* every co_shutdown() the specification says was sent has been seen       *)
 AllShutSeen ==
   /\ \A j \in Jobs(cfg) : S.sh[j] # "none" => Marked("shut", j)
-  /\ \A j \in Jobs(cfg) : S.sh[j] = "cancelled" => Marked("shc", j)
+  /\ \A j \in Jobs(cfg) : S.sh[j] \in {"cancelled", "cing"} => Marked("shc", j)
   /\ \A s \in Scheds(cfg) : (s # Root /\ S.nstart[s] > 0) => Marked("ran", s)
 
 ETop ==
@@ -184,7 +191,7 @@ Logged ==
   /\ l' = l + 1
   /\ \/ ERunBegin \/ EStart \/ EEnd \/ ERaise \/ ECancel \/ ERecancel \/ ECancelDone
      \/ ESshut \/ ESshutRet \/ ESshutCancel \/ ERunEnd \/ ERunExc \/ EDiag
-     \/ EShut \/ EShutDone \/ EShutCancel \/ ETick \/ ESnap \/ ETop \/ ELeftover \/ EStall
+     \/ EShut \/ EShutDone \/ EShutCancel \/ ETick \/ ESnap \/ ETop \/ ELeftover \/ EStall \/ EShutCancelDone
 
 Silent ==
   /\ l' = l /\ KeepM /\ Has
@@ -247,7 +254,7 @@ Why(C, X, e) ==
              ELSE IF \E s \in Scheds(C) : TimeoutG(C, X, s) THEN "tick-over-deadline"
              ELSE IF \E s \in Scheds(C) : ShutExpireG(C, X, s) THEN "tick-over-shutdown-deadline"
              ELSE IF \E s \in Scheds(C) : TidyDoneG(C, X, s) \/ ShutJoinG(C, X, s) THEN "tick-over-ending-run"
-             ELSE IF \E j \in Nodes(C) : JobEndG(C, X, j) \/ CancelDoneG(C, X, j) \/ HandlerEndG(C, X, j) THEN "tick-over-job-alarm"
+             ELSE IF \E j \in Nodes(C) : JobEndG(C, X, j) \/ CancelDoneG(C, X, j) \/ HandlerEndG(C, X, j) \/ HandlerCancelDoneG(C, X, j) THEN "tick-over-job-alarm"
              ELSE IF AnyInstant(C, X) THEN "tick-over-instant"
              ELSE IF Terminated(C, X) THEN "tick-after-end"
              ELSE IF Future(C, X) = {} THEN "tick-no-alarm"
@@ -282,6 +289,7 @@ Why(C, X, e) ==
              ELSE "shut-other")
        [] e.k = "shut-done" -> "shut-done-unexpected"
        [] e.k = "shut-cancel" -> "shut-cancel-unexpected"
+       [] e.k = "shut-cancel-done" -> "shut-cancel-done-early"
        [] e.k = "snap" -> "predicates"
        [] e.k = "stall" -> "stall-other"
        [] e.k = "top" ->
